@@ -232,7 +232,7 @@ def get_anomalies(
 def penalise_savings(
     savings: np.ndarray, alpha: float, betas: np.ndarray
 ) -> np.ndarray:
-    if np.all(betas < 1e-8):
+    if np.all(betas == 0.0):
         penalised_savings = savings.sum(axis=1) - alpha
     elif np.all(betas == betas[0]):
         penalised_saving_matrix = np.maximum(savings - betas[0], 0.0)
